@@ -3,7 +3,8 @@ import re
 
 from acverif.core import only
 from acverif.mir import short, tstr, subterms, affine_str
-from acverif.rl import (is_call, peel, peel_all, is_var, is_agg, is_const, self_field, bool_gates, try_gates, discr_gates,
+from acverif.rl import (is_call, peel, peel_all, is_var, is_agg, is_const, self_field, bool_gates, try_gates, result_gates, discr_gates, cmp_gates,
+                        param_of_type, param_at, var_of_type, user_locals_of_type, value_roots, var_defs_terms, result_gates, Eval, EvalPanic, Unsupported, enum_gates, arm_edges, other_edges,
                         reachable_without, must_pass, line_of, decision_table, rewrite, expand_vars, atom, cmp_norm,
                         find_calls, operand_ty, CallGraph)
 
@@ -31,7 +32,7 @@ def snorm(t):
             return REP
         if sf(x, 'absolute_pos'):
             return ABS
-        if is_call(x, r'util::search::Match::len$') and is_var(peel(x[2][0]), 'mat'):
+        if is_call(x, r'util::search::Match::len$'):
             return MLEN
         if is_call(x, r'core::num::saturating_sub$'):
             return ('satsub', x[2][0], x[2][1])
@@ -108,33 +109,66 @@ def sub(a, b):
     return ('op', 'Sub', a, b)
 
 
-SAT = ('satsub', LEN, MIN)
+def _rng(s, e):
+    return ('agg', 'Range', 'Range', (('end', e), ('start', s)))
+
+
+def _some(x):
+    return ('agg', 'Option', 'Some', (('0', x),))
+
+
+_NONE = ('agg', 'Option', 'None', ())
+# specification functions over (POS, REP, LEN, MIN, MLEN); None = don't care (the code panics on arithmetic underflow there)
 HELPER_SPECS = {
-    'get_match_chunk': ('[buffer_pos - mat.len(), buffer_pos)',
-                        [([], ('Range', sub(POS, MLEN), POS))]),
-    'get_non_match_chunk': ('Some([reported, buffer_pos - mat.len())) iff buffer_pos - mat.len() > reported, else None',
-                            [([(('op', 'Gt', sub(POS, MLEN), REP), True)], ('Some', REP, sub(POS, MLEN))),
-                             ([(('op', 'Gt', sub(POS, MLEN), REP), False)], ('None',))]),
-    'get_pre_roll_non_match_chunk': ('Some([reported, len (-) min)) iff reported < len (-) min, else None (saturating)',
-                                     [([(('op', 'Lt', REP, SAT), True)], ('Some', REP, SAT)),
-                                      ([(('op', 'Lt', REP, SAT), False)], ('None',))]),
-    'get_eof_non_match_chunk': ('Some([reported, len)) iff reported < len, else None',
-                                [([(('op', 'Lt', REP, LEN), True)], ('Some', REP, LEN)),
-                                 ([(('op', 'Lt', REP, LEN), False)], ('None',))]),
+    'get_match_chunk': ('[buffer_pos - mat.len(), buffer_pos)', ('POS', 'MLEN'),
+                        lambda e: None if e['MLEN'] > e['POS'] else _rng(e['POS'] - e['MLEN'], e['POS'])),
+    'get_non_match_chunk': ('Some([reported, buffer_pos - mat.len())) iff buffer_pos - mat.len() > reported, else None', ('POS', 'MLEN', 'REP'),
+                            lambda e: None if e['MLEN'] > e['POS'] else (_some(_rng(e['REP'], e['POS'] - e['MLEN'])) if e['POS'] - e['MLEN'] > e['REP'] else _NONE)),
+    'get_pre_roll_non_match_chunk': ('Some([reported, len (-) min)) iff reported < len (-) min, else None (saturating)', ('LEN', 'MIN', 'REP'),
+                                     lambda e: _some(_rng(e['REP'], max(0, e['LEN'] - e['MIN']))) if e['REP'] < max(0, e['LEN'] - e['MIN']) else _NONE),
+    'get_eof_non_match_chunk': ('Some([reported, len)) iff reported < len, else None', ('REP', 'LEN'),
+                                lambda e: _some(_rng(e['REP'], e['LEN'])) if e['REP'] < e['LEN'] else _NONE),
 }
+ATOMS = {'LEN': LEN, 'MIN': MIN, 'POS': POS, 'REP': REP, 'ABS': ABS, 'MLEN': MLEN}
+
+
+def stream_atoms(env):
+    def a(t):
+        s = snorm(t)
+        for k, v in ATOMS.items():
+            if s == v:
+                return env.get(k)
+        return None
+    return a
 
 
 @only(STREAM_CONFIGS)
 def r08_1(cx):
-    for name, (descr, spec) in HELPER_SPECS.items():
+    import itertools
+    for name, (descr, syms, spec) in HELPER_SPECS.items():
         b = cx.body(SCI + name)
-        rows = helper_rows(b)
-        want = spec_rows(spec)
-        ok = rows == want
-        cx.report('R08.1', b, 'contract', ok, ('%s = %s' % (name, descr)) if ok else
-                  '%s does not compute %s: extracted %s, specified %s' % (name, descr, sorted(rows) if rows else rows, sorted(want)))
+        bad = None
+        n = 0
+        try:
+            for vals in itertools.product(range(0, 6), repeat=len(syms)):
+                env = dict(zip(syms, vals))
+                want = spec(env)
+                if want is None:
+                    continue
+                n += 1
+                try:
+                    got = Eval(b, stream_atoms(env)).run()
+                except EvalPanic as e:
+                    got = ('panic', str(e))
+                if got != want:
+                    bad = (env, got, want)
+                    break
+        except Unsupported as e:
+            bad = ('the helper uses a construct outside comparison/affine arithmetic: %s' % e, None, None)
+        cx.report('R08.1', b, 'contract', bad is None, ('%s = %s (decided on all %d assignments of %s in 0..5, which cover every relative ordering)' % (name, descr, n, '/'.join(syms))) if bad is None else
+                  '%s does not compute %s: for %s it yields %s, specified %s' % (name, descr, bad[0], bad[1], bad[2]))
     b = cx.body(SCI + 'get_match')
-    t = snorm(b.local_term(0, expand=True))
+    t = snorm(expand_vars(b, b.def_term(0) or b.local_term(0)))
     ok = is_call(t, r'^automaton::get_match$') and len(t[2]) == 4 and sf(peel(t[2][0]), 'aut') and sf(t[2][1], 'sid') and t[2][2] == ('c', 0) and t[2][3] == ABS
     cx.report('R08.1', b, 'get_match', ok, 'reported match = get_match(aut, sid, 0, absolute_pos)' if ok else 'get_match helper returns %s' % tstr(t, 200))
 
@@ -160,49 +194,47 @@ def r08_2(cx):
     seen = {}
     used_rep = set()
     for bi, si, variant, fields in sites:
-        bytes_t = expand_vars(b, fields.get('bytes'), keep=('r', 'mat'))
+        bytes_t = expand_vars(b, fields.get('bytes'))
         bt = peel(bytes_t)
-        ok = is_call(bt, r'core::ops::Index::index$') and is_call(peel(bt[2][0]), r'Buffer::buffer$') and sf(peel(bt[2][0])[2][0], 'buf') and is_var(peel(bt[2][1]), 'r')
+        ok = is_call(bt, r'core::ops::Index::index$') and is_call(peel(bt[2][0]), r'Buffer::buffer$') and sf(peel(bt[2][0])[2][0], 'buf')
         if not ok:
-            cx.bad('R08.2', b, 'site:%s/bytes' % variant, 'chunk bytes are %s, expected buffer()[r]' % tstr(bytes_t, 200), line_of(b, bi, si))
+            cx.bad('R08.2', b, 'site:%s/bytes' % variant, 'chunk bytes are %s, expected buffer()[range]' % tstr(bytes_t, 200), line_of(b, bi, si))
             continue
-        r = peel(bt[2][1])
-        rdef = b.def_term(r[2]) or r
+        R = peel_all(bt[2][1])          # fully expanded range expression: identifies the helper call site
         helper = None
-        if rdef[0] == 'f' and rdef[1][0] == 'dc' and rdef[1][2] == 'Some' and is_call(rdef[1][1], r'StreamChunkIter::get_\w+$'):
-            hc = rdef[1][1]
-        elif is_call(rdef, r'StreamChunkIter::get_match_chunk$'):
-            hc = rdef
-        else:
-            hc = None
+        hc = None
+        if R[0] == 'f' and R[1][0] == 'dc' and R[1][2] == 'Some' and is_call(R[1][1], r'StreamChunkIter::get_\w+$'):
+            hc = R[1][1]
+        elif is_call(R, r'StreamChunkIter::get_match_chunk$'):
+            hc = R
+        hargs = []
         if hc is not None:
             helper = short(hc[1]).rsplit('::', 1)[1]
-            hargs = [peel(a) for a in hc[2]]
+            hargs = [peel_all(a) for a in hc[2]]
         good_helper = (variant == 'NonMatch' and helper in ('get_non_match_chunk', 'get_pre_roll_non_match_chunk', 'get_eof_non_match_chunk')) or (variant == 'Match' and helper == 'get_match_chunk')
         if good_helper:
-            good_helper = is_var(hargs[0], 'self') and all(is_var(a, 'mat') for a in hargs[1:])
+            good_helper = is_var(hargs[0], 'self') and all(is_call(a, r'StreamChunkIter::get_match$') and is_var(peel(a[2][0]), 'self') for a in hargs[1:])
         cx.report('R08.2', b, 'site:%s/range' % (helper or variant), good_helper,
-                  '%s chunk range comes from %s' % (variant, helper) if good_helper else '%s chunk takes its range from %s' % (variant, tstr(rdef, 160)), line_of(b, bi, si))
+                  '%s chunk range comes from %s' % (variant, helper) if good_helper else '%s chunk takes its range from %s' % (variant, tstr(R, 160)), line_of(b, bi, si))
         seen[helper] = seen.get(helper, 0) + 1
-        # accounting: REP += r.len() with the same r, dominating the site, after r is defined
+        # accounting: REP += range.len() for the range of the same helper call site, dominating the site, after the helper ran
         acc = []
         for sb, ssi, val in rep_stores:
-            v = snorm(val)
-            if v[0] == 'op' and v[1] == 'Add' and v[2] == REP and v[3] == ('rlen', r):
+            v = snorm(expand_vars(b, val))
+            if v[0] == 'op' and v[1] == 'Add' and v[2] == REP and v[3][0] == 'rlen' and peel_all(v[3][1]) == snorm(R):
                 acc.append(sb)
-        rdefblk = b.defs()[r[2]][0][0]
-        okacc = len(acc) == 1 and b.dominates(acc[0], bi) and b.dominates(rdefblk, acc[0])
+        hblk = hc[3] if hc is not None else None
+        okacc = len(acc) == 1 and b.dominates(acc[0], bi) and hblk is not None and b.dominates(hblk, acc[0])
         if okacc:
             used_rep.add(acc[0])
         cx.report('R08.2', b, 'site:%s/accounting' % (helper or variant), okacc,
-                  'buffer_reported_pos += r.len() with the same range precedes the return' if okacc else 'the returned range is not accounted in buffer_reported_pos exactly once before the return', line_of(b, bi, si))
+                  'buffer_reported_pos += range.len() with the same range precedes the return' if okacc else 'the returned range is not accounted in buffer_reported_pos exactly once before the return', line_of(b, bi, si))
         if variant == 'Match':
-            m = fields.get('mat')
-            md = b.local_term(m[2], expand=True) if is_var(m, 'mat') else None
-            okm = md is not None and is_call(md, r'StreamChunkIter::get_match$') and is_var(peel(md[2][0]), 'self')
-            cx.report('R08.2', b, 'site:Match/mat', okm, 'Match chunk carries mat = self.get_match()' if okm else 'Match chunk carries %s' % tstr(m, 100), line_of(b, bi, si))
+            m = expand_vars(b, fields.get('mat'))
+            okm = is_call(m, r'StreamChunkIter::get_match$') and is_var(peel(m[2][0]), 'self') and (not hargs[1:] or m == hargs[1])
+            cx.report('R08.2', b, 'site:Match/mat', okm, 'Match chunk carries mat = self.get_match(), the match its range was computed for' if okm else 'Match chunk carries %s' % tstr(m, 100), line_of(b, bi, si))
             # only after the non-match chunk: cut the non-Some edges of get_non_match_chunk(self, mat)
-            gs = discr_gates(b, lambda x: is_call(x, r'StreamChunkIter::get_non_match_chunk$'))
+            gs = discr_gates(b, lambda x: is_call(expand_vars(b, x), r'StreamChunkIter::get_non_match_chunk$'))
             cut = []
             for gb, x, arms, oth in gs:
                 some_targets = {tg for v, tg in arms.items() if v == 1}
@@ -217,7 +249,7 @@ def r08_2(cx):
     cx.report('R08.2', b, 'sites:foreign', not extra, 'every chunk return takes its range from a chunk helper' if not extra else 'chunk returned from a foreign range source: %s' % extra)
     # inventory of stores to buffer_reported_pos: 4 accounted + the roll adjustment
     other = [(sb, val) for sb, ssi, val in rep_stores if sb not in used_rep]
-    okr = len(other) == 1 and affine_str(snorm(other[0][1])) == affine_str(('op', 'Sub', REP, sub(LEN, MIN)))
+    okr = len(other) == 1 and affine_str(snorm(expand_vars(b, other[0][1]))) == affine_str(('op', 'Sub', REP, sub(LEN, MIN)))
     cx.report('R08.2', b, 'reported-writers', okr, 'buffer_reported_pos is written only by the four accounted returns and the roll adjustment reported -= len - min' if okr else
               'unexpected writes to buffer_reported_pos: %s' % [tstr(snorm(v), 120) for _, v in other])
 
@@ -225,6 +257,7 @@ def r08_2(cx):
 @only(STREAM_CONFIGS)
 def r08_3(cx):
     b = cx.body('automaton::Automaton::try_stream_replace_all_with')
+    SELF, RDR, WTR, RW = (param_at(b, i) for i in (1, 2, 3, 4))
     nx = b.calls(r'StreamChunkIter::next$')
     ok = len(nx) == 1
     cx.report('R08.3', b, 'driver-source', ok, 'the driver draws chunks from one StreamChunkIter::next call site' if ok else '%d next() call sites' % len(nx))
@@ -233,14 +266,29 @@ def r08_3(cx):
     okn = False
     if len(news) == 1:
         ct = b.call_term(*news[0])
-        okn = is_var(peel(ct[2][0]), 'self') and is_var(peel(ct[2][1]), 'rdr')
+        okn = peel(ct[2][0]) == SELF and peel(ct[2][1]) == RDR
     cx.report('R08.3', b, 'driver-iter', okn, 'iterator is StreamChunkIter::new(self, rdr)' if okn else 'iterator is not built from (self, rdr)')
+
+    def chunk_of(x, variant, field):
+        """x = (<chunk> as variant).field where <chunk> is the payload of the next() call: returns the chunk term"""
+        x = peel_all(expand_vars(b, x))
+        if not (x[0] == 'f' and x[2] == field and x[1][0] == 'dc' and x[1][2] == variant):
+            return None
+        y = x[1][1]
+        for _ in range(12):
+            y = peel_all(y)
+            if y[0] == 'f' and y[1][0] == 'dc':
+                y = y[1][1]
+            elif is_call(y, r'Try::branch$'):
+                y = y[2][0]
+            else:
+                break
+        return x[1][1] if is_call(y, r'StreamChunkIter::next$') else None
     w = b.calls(r'std::io::Write::write_all$')
     okw = False
     if len(w) == 1:
         ct = b.call_term(*w[0])
-        a1 = expand_vars(b, ct[2][1], keep=('chunk',))
-        okw = is_var(peel(ct[2][0]), 'wtr') and a1[0] == 'f' and a1[2] == 'bytes' and a1[1][0] == 'dc' and a1[1][2] == 'NonMatch'
+        okw = peel_all(ct[2][0]) == WTR and chunk_of(ct[2][1], 'NonMatch', 'bytes') is not None
     cx.report('R08.3', b, 'non-match-write', okw, 'NonMatch bytes go to wtr.write_all unchanged' if okw else 'NonMatch chunk is not written verbatim with write_all')
     c = b.calls(r'core::ops::FnMut::call_mut$')
     okc = False
@@ -248,23 +296,25 @@ def r08_3(cx):
         ct = b.call_term(*c[0])
         tup = ct[2][1]
         if is_agg(tup, 'tuple') and len(tup[3]) == 3:
-            a = [expand_vars(b, x, keep=('chunk',)) for x in tup[3]]
-            okc = (is_var(peel(ct[2][0]), 'replace_with') and a[0][0] == 'f' and a[0][2] == 'mat' and a[0][1][0] == 'dc' and a[0][1][2] == 'Match'
-                   and a[1][0] == 'f' and a[1][2] == 'bytes' and a[1][1] == a[0][1] and is_var(peel(a[2]), 'wtr'))
+            a = tup[3]
+            m, by = chunk_of(a[0], 'Match', 'mat'), chunk_of(a[1], 'Match', 'bytes')
+            okc = peel_all(ct[2][0]) == RW and m is not None and m == by and peel_all(a[2]) == WTR
     cx.report('R08.3', b, 'match-closure', okc, 'Match chunk hands (&mat, bytes, &mut wtr) of the same chunk to the closure' if okc else 'closure is not called with (mat, bytes, wtr) of the Match chunk')
     # each chunk kind reaches exactly its own sink: dispatch on discr(chunk)
-    gs = discr_gates(b, lambda x: is_var(x, 'chunk'))
+    gs = enum_gates(b, r'^automaton::StreamChunk(<|$)')
     okd = False
-    if len(gs) == 1 and w and c:
-        gb, x, arms, oth = gs[0]
+    if gs and w and c:
         vidx = {v['name']: i for i, v in enumerate(cx.facts.adts['automaton::StreamChunk']['variants'])}
         header = nx[0][0] if nx else None
-        def first_sink(tg):
-            r = b.reach(tg, cut_blocks=[w[0][0], c[0][0]] + ([header] if header is not None else []))
+
+        def first_sink(edges):
+            r = set()
+            for e in edges:
+                r |= b.reach(e[1], cut_blocks=[w[0][0], c[0][0]] + ([header] if header is not None else []))
             return (w[0][0] in r, c[0][0] in r)
-        tn = arms.get(vidx['NonMatch'], oth)
-        tm = arms.get(vidx['Match'], oth)
-        okd = first_sink(tn) == (True, False) and first_sink(tm) == (False, True)
+        okd = all(first_sink(arm_edges(b, g, vidx['NonMatch'])) == (True, False) and first_sink(arm_edges(b, g, vidx['Match'])) == (False, True) for g in gs)
+        # and no sink is reachable around the dispatch
+        okd = okd and not reachable_without(b, [w[0][0], c[0][0]], [e for g in gs for v in vidx.values() for e in arm_edges(b, g, v)])
     cx.report('R08.3', b, 'dispatch', okd, 'NonMatch -> write_all only, Match -> closure only' if okd else 'chunk kinds are not dispatched to their own sinks')
     # table variant
     t = cx.body('automaton::Automaton::try_stream_replace_all')
@@ -273,12 +323,13 @@ def r08_3(cx):
     if len(calls) == 1:
         blk = calls[0][0]
         ct = t.call_term(*calls[0])
-        okargs = is_var(peel(ct[2][0]), 'self') and is_var(peel(ct[2][1]), 'rdr') and is_var(peel(ct[2][2]), 'wtr') and is_agg(ct[2][3], 'closure')
+        okargs = all(peel_all(ct[2][i]) == param_at(t, i + 1) for i in (0, 1, 2)) and is_agg(ct[2][3], 'closure')
+        RWT = param_at(t, 4)
         def lens(x):
             if not (isinstance(x, tuple) and x[0] == 'op' and x[1] in ('Eq', 'Ne')):
                 return False
             sides = [t.local_term(s[2], expand=True) if is_var(s) else s for s in (x[2], x[3])]
-            return any(is_call(s, r'core::slice::len$') and is_var(peel(s[2][0]), 'replace_with') for s in sides) and any(is_call(s, r'Automaton::patterns_len$') for s in sides)
+            return any(is_call(s, r'core::slice::len$') and peel_all(s[2][0]) == RWT for s in sides) and any(is_call(s, r'Automaton::patterns_len$') for s in sides)
         g = bool_gates(t, lens)
         cut = []
         for gg in g:
@@ -312,86 +363,98 @@ def r08_3(cx):
 @only(STREAM_CONFIGS)
 def r07_1(cx):
     new = cx.body('util::buffer::Buffer::new')
-    t = expand_vars(new, new.local_term(0, expand=True))
-    ok = False
-    why = tstr(t, 300)
-    if is_agg(t, r'util::buffer::Buffer$') and isinstance(t[3], dict):
-        mn = t[3]['min']
-        okmin = is_call(mn, r'core::cmp::max$') and sorted([tstr(x) for x in mn[2]]) == sorted(['1', 'min_buffer_len'])
-        buf = t[3]['buf']
-        okbuf = False
-        if is_call(buf, r'alloc::vec::from_elem$') and buf[2][0] == ('c', 0):
-            cap = buf[2][1]
-            if is_call(cap, r'core::cmp::max$'):
-                for a in cap[2]:
-                    if a[0] == 'op' and a[1] == 'Mul':
-                        fs = [a[2], a[3]]
-                        k = [x for x in fs if x[0] == 'c']
-                        m = [x for x in fs if x == mn]
-                        if len(k) == 1 and len(m) == 1 and k[0][1] >= 2:
-                            okbuf = True
-        okend = t[3]['end'] == ('c', 0)
-        ok = okmin and okbuf and okend
-        why = 'min ok=%s, capacity ok=%s, end ok=%s: %s' % (okmin, okbuf, okend, tstr(t, 300))
-    cx.report('R07.1', new, 'new', ok, 'min = max(1, arg); buf = vec![0; max(k*min, DEFAULT)] with k >= 2 (capacity > min); end = 0' if ok else 'Buffer::new deviates: ' + why)
+    argp = param_at(new, 1)
+    bad = None
+    n = 0
+    try:
+        for a in (0, 1, 2, 3, 7, 100, 8191, 8192, 8193, 65535, 65536, 65537, 131072, 1 << 20, (1 << 20) + 1, 1 << 24):
+            n += 1
+            got = Eval(new, lambda t0, a=a: a if t0 == argp else None).run()
+            f = dict(got[3]) if isinstance(got, tuple) and got[0] == 'agg' else {}
+            mn, end, buf = f.get('min'), f.get('end'), f.get('buf')
+            if mn != max(1, a):
+                bad = 'min = %s for argument %d (expected max(1, arg))' % (mn, a)
+            elif end != 0:
+                bad = 'end = %s (expected 0)' % (end,)
+            elif not (isinstance(buf, tuple) and buf[0] == 'vec' and buf[1] == 0):
+                bad = 'buf is not a zero-filled vector: %s' % (buf,)
+            elif not (buf[2] > mn and buf[2] >= 2 * mn):
+                bad = 'capacity %d for min %d: the buffer must be larger than (at least twice) the retained tail, otherwise a refill after a roll reads nothing or refills thrash' % (buf[2], mn)
+            if bad:
+                break
+    except (Unsupported, EvalPanic) as e:
+        bad = 'cannot evaluate Buffer::new: %s' % e
+    cx.report('R07.1', new, 'new', bad is None, 'min = max(1, arg); end = 0; buf = vec![0; capacity] with capacity >= 2*min > min (decided on %d representative arguments around every constant of the function)' % n if bad is None else 'Buffer::new deviates: ' + bad)
     b = cx.body('util::buffer::Buffer::buffer')
-    t = b.local_term(0, expand=True)
+    t = expand_vars(b, b.def_term(0) or b.local_term(0))
     ok = is_call(t, r'Index::index$') and sf(peel(t[2][0]), 'buf') and is_agg(t[2][1], r'RangeTo$') and sf(t[2][1][3]['end'], 'end')
     cx.report('R07.1', b, 'buffer', ok, 'buffer() = buf[..end]' if ok else 'buffer() = %s' % tstr(t, 120))
     b = cx.body('util::buffer::Buffer::min_buffer_len')
-    t = b.local_term(0, expand=True)
+    t = expand_vars(b, b.def_term(0) or b.local_term(0))
     cx.report('R07.1', b, 'min_buffer_len', sf(t, 'min'), 'min_buffer_len() = min' if sf(t, 'min') else 'min_buffer_len() = %s' % tstr(t, 80))
-    b = cx.body('util::buffer::Buffer::free_buffer')
-    t = b.local_term(0, expand=True)
-    ok = is_call(t, r'IndexMut::index_mut$') and sf(peel(t[2][0]), 'buf') and is_agg(t[2][1], r'RangeFrom$') and sf(t[2][1][3]['start'], 'end')
-    cx.report('R07.1', b, 'free_buffer', ok, 'free_buffer() = buf[end..]' if ok else 'free_buffer() = %s' % tstr(t, 120))
+
+    def is_free(x, fb):
+        """buf[end..] as a mutable slice, directly or through the free_buffer helper"""
+        x = peel(expand_vars(fb, x))
+        if is_call(x, r'Buffer::free_buffer$') and is_var(peel(x[2][0]), 'self'):
+            return True
+        return is_call(x, r'IndexMut::index_mut$') and sf(peel(x[2][0]), 'buf') and is_agg(x[2][1], r'RangeFrom$') and sf(x[2][1][3]['start'], 'end')
+    fbody = cx.facts.body('util::buffer::Buffer::free_buffer')
+    if fbody is not None:
+        t = expand_vars(fbody, fbody.def_term(0) or fbody.local_term(0))
+        ok = is_call(t, r'IndexMut::index_mut$') and sf(peel(t[2][0]), 'buf') and is_agg(t[2][1], r'RangeFrom$') and sf(t[2][1][3]['start'], 'end')
+        cx.report('R07.1', fbody, 'free_buffer', ok, 'free_buffer() = buf[end..]' if ok else 'free_buffer() = %s' % tstr(t, 120))
     # fill
     f = cx.body('util::buffer::Buffer::fill')
+    rdrp = param_at(f, 2)
     reads = f.calls(r'std::io::Read::read$')
     okr = False
     if len(reads) == 1:
         ct = f.call_term(*reads[0])
-        okr = is_var(peel(ct[2][0]), 'rdr') and is_call(peel(ct[2][1]), r'Buffer::free_buffer$') and is_var(peel(peel(ct[2][1])[2][0]), 'self')
-    cx.report('R07.1', f, 'fill/read', okr, 'reads into free_buffer() only' if okr else 'read target is not free_buffer()')
+        okr = peel(ct[2][0]) == rdrp and is_free(ct[2][1], f)
+    cx.report('R07.1', f, 'fill/read', okr, 'reads into buf[end..] only' if okr else 'read target is not the free part of the buffer')
     ends = [(bi, si, val) for bi, si, tt, val, st in f.field_stores() if sf(tt, 'end')]
     oke = False
-    if len(ends) == 1:
-        v = expand_vars(f, ends[0][2])
-        oke = v[0] == 'op' and v[1] == 'Add' and sf(v[2], 'end') and v[3][0] == 'try' and is_call(v[3][1], r'std::io::Read::read$')
+    if len(ends) == 1 and reads:
+        v = ends[0][2]
+        if v[0] == 'op' and v[1] == 'Add':
+            sides = [v[2], v[3]]
+            e_side = [x for x in sides if sf(x, 'end')]
+            o_side = [x for x in sides if not sf(x, 'end')]
+            if len(e_side) == 1 and len(o_side) == 1:
+                roots = value_roots(f, o_side[0], ends[0][0], ends[0][1])
+                oke = bool(roots) and all(is_call(r, r'std::io::Read::read$') for r in roots)
     cx.report('R07.1', f, 'fill/end', oke, 'the only store to end adds exactly the reader\'s return value' if oke else 'end is updated by %s' % [tstr(expand_vars(f, v), 120) for _, _, v in ends])
     other = [tt for bi, si, tt, val, st in f.field_stores() if not sf(tt, 'end')]
     cx.report('R07.1', f, 'fill/other-stores', not other, 'fill writes no other field' if not other else 'fill writes %s' % [tstr(x) for x in other])
-    # return values: Ok(readany) on read == 0, Ok(true) when len >= min; readany: false at entry, true after a non-empty read
-    tb_ok = False
+    # result protocol: Ok(flag) on a zero read, Ok(true) when enough is buffered; flag is false only while nothing has been read
     rets = [(bi, f.rvalue_term(st['r'], 0, bi)) for bi, si, pl, st in f.stores() if si != 'term' and pl['l'] == 0 and not pl['pr']]
+    okrets = [t0 for _, t0 in rets if is_agg(t0, r'Result$', 'Ok')]
+    flags = [t0[3]['0'] for t0 in okrets if is_var(t0[3]['0'])]
     ok_false_only_first = False
-    ra = f.locals_named('readany')
-    if ra:
-        defs = f.defs().get(ra[0], [])
-        vals = sorted(tstr(f.rvalue_term(d[3]['r'], 0, d[0])) for d in defs if d[2] == 'assign')
-        hdr = [h for h in f.loops()]
-        zero_in_loop = any(d[0] in f.loops().get(hdr[0], set()) for d in defs if d[2] == 'assign' and f.rvalue_term(d[3]['r'], 0, d[0]) == ('c', 0)) if hdr else True
-        # the `readany = true` store must lie between a non-zero read and the next read
-        g = bool_gates(f, lambda x: cmp_norm(expand_vars(f, x)) is not None and 'read' in tstr(expand_vars(f, x)))
-        one_store = [d[0] for d in defs if d[2] == 'assign' and f.rvalue_term(d[3]['r'], 0, d[0]) == ('c', 1)]
-        ok_false_only_first = vals == ['0', '1'] and not zero_in_loop and len(one_store) == 1
-        if ok_false_only_first and reads:
-            # from the non-zero edge of `readlen == 0`, every path back to read() passes the store
-            nz = []
-            for gb, cond, te, fe in g:
-                c2 = expand_vars(f, cond)
-                if c2[0] == 'op' and c2[1] in ('Eq', 'Ne') and ('c', 0) in (c2[2], c2[3]):
-                    nz += fe if c2[1] == 'Eq' else te
-            ok_false_only_first = bool(nz) and all(must_pass(f, [reads[0][0]], one_store, src=tg) for _, tg in nz)
-    okrets = all(is_agg(t, r'Result$', 'Ok') and (is_var(t[3]['0'], 'readany') or t[3]['0'] == ('c', 1)) for _, t in rets) and len(rets) >= 2
-    cx.report('R07.1', f, 'fill/result', okrets and ok_false_only_first, 'returns Ok(readany)/Ok(true); readany is false only while no byte has been read' if okrets and ok_false_only_first else 'fill result protocol deviates (returns %s)' % [tstr(t, 60) for _, t in rets])
-    # zero read returns immediately
-    zg = bool_gates(f, lambda x: (lambda c2: c2[0] == 'op' and c2[1] in ('Eq', 'Ne') and ('c', 0) in (c2[2], c2[3]) and 'read' in tstr(c2))(expand_vars(f, x)))
-    okz = False
-    for gb, cond, te, fe in zg:
-        c2 = expand_vars(f, cond)
-        zero_edges = te if c2[1] == 'Eq' else fe
-        okz = all(reads[0][0] not in f.reach(tg) for _, tg in zero_edges) if reads else False
+    zero_edges, nonzero_edges = [], []
+    if reads:
+        for blk, sc in f.switches():
+            if sc[0] != 'bool':
+                continue
+            c = expand_vars(f, sc[1])
+            e = eq_zero_of_read(f, c)
+            if e is None:
+                continue
+            # e = True: condition is `n == 0`; False: `n != 0` / `n > 0`
+            zero_edges += [(blk, x) for x in (sc[2] if e else sc[3])]
+            nonzero_edges += [(blk, x) for x in (sc[3] if e else sc[2])]
+    if flags and reads and nonzero_edges:
+        FL = flags[0]
+        defs = var_defs_terms(f, FL[2])
+        hdr = list(f.loops())
+        zero_in_loop = any(bi in f.loops().get(hdr[0], set()) for bi, si, t0 in defs if t0 == ('c', 0)) if hdr else True
+        one_store = [bi for bi, si, t0 in defs if t0 == ('c', 1)]
+        vals = sorted(tstr(t0) for bi, si, t0 in defs)
+        ok_false_only_first = vals == ['0', '1'] and not zero_in_loop and len(one_store) == 1 and all(must_pass(f, [reads[0][0]], one_store, src=tg) for _, tg in nonzero_edges)
+    okshape = len(okrets) >= 2 and all(is_var(t0[3]['0']) or t0[3]['0'] == ('c', 1) for t0 in okrets)
+    cx.report('R07.1', f, 'fill/result', okshape and ok_false_only_first, 'returns Ok(flag)/Ok(true); the flag is false only while no byte has been read' if okshape and ok_false_only_first else 'fill result protocol deviates (returns %s)' % [tstr(t0, 60) for _, t0 in rets])
+    okz = bool(zero_edges) and all(reads[0][0] not in f.reach(tg) for _, tg in zero_edges)
     cx.report('R07.1', f, 'fill/eof', okz, 'a zero-length read ends fill without another read' if okz else 'a zero-length read does not end fill')
     # roll
     r = cx.body('util::buffer::Buffer::roll')
@@ -400,6 +463,7 @@ def r07_1(cx):
     if len(cw) == 1:
         ct = expand_vars(r, r.call_term(*cw[0]))
         rg = ct[2][1]
+
         def end_minus_min(x):
             x = peel_all(x)
             if is_call(x, r'core::option::Option::(expect|unwrap)$'):
@@ -423,6 +487,28 @@ def r07_1(cx):
         for bi, si, tt, val, st in ob.field_stores():
             if tt[0] == 'f' and tt[2] in ('end', 'min') and st.get('p', st.get('dest', {})).get('pr') and any(isinstance(x, dict) and x.get('of') == 'util::buffer::Buffer' for x in st.get('p', st.get('dest'))['pr']):
                 cx.bad('R07.1', ob, 'foreign-buffer-write', 'Buffer.%s written outside Buffer\'s own methods' % tt[2], line_of(ob, bi, si))
+
+
+def eq_zero_of_read(f, c):
+    """Is condition c a test of the reader's byte count against zero? Returns True for `n == 0`, False for `n != 0` / `n > 0` /
+    `0 < n`, None otherwise."""
+    if not (isinstance(c, tuple) and c[0] == 'op' and c[1] in ('Eq', 'Ne', 'Gt', 'Lt', 'Ge', 'Le')):
+        return None
+    a, b0 = c[2], c[3]
+    def is_read(x):
+        x = peel_all(x)
+        while x[0] == 'f' and x[1][0] == 'dc':
+            x = peel_all(x[1][1])
+            if is_call(x, r'Try::branch$'):
+                x = peel_all(x[2][0])
+        return is_call(x, r'std::io::Read::read$')
+    if is_read(a) and b0 == ('c', 0):
+        return {'Eq': True, 'Ne': False, 'Gt': False, 'Le': True}.get(c[1])
+    if is_read(b0) and a == ('c', 0):
+        return {'Eq': True, 'Ne': False, 'Lt': False, 'Ge': True}.get(c[1])
+    if is_read(a) and b0 == ('c', 1):
+        return {'Lt': True, 'Ge': False}.get(c[1])
+    return None
 
 
 @only(STREAM_CONFIGS)
@@ -526,23 +612,19 @@ def r07_3(cx):
     after = [x for x in pos_st if x[0] not in body_blks and x[0] in b.reach(h)]
     okp = False
     why = ''
-    if len(after) >= 1:
-        cand = [x for x in after if 'ABS' in tstr(snorm(expand_vars(b, x[2], keep=('start',))))]
-        if len(cand) == 1:
-            v = snorm(cand[0][2])
-            sv = b.locals_named('start')
-            # start = self.absolute_pos taken before the loop
-            okstart = False
-            for l in sv:
-                ds = b.defs().get(l, [])
-                if len(ds) == 1 and ds[0][2] == 'assign' and sf(b.rvalue_term(ds[0][3]['r'], 0, ds[0][0]), 'absolute_pos') and ds[0][0] not in body_blks and b.dominates(ds[0][0], h):
-                    want = affine_str(('op', 'Add', POS, ('op', 'Sub', ABS, ('v', 'start', l))))
-                    if affine_str(v) == want:
-                        okstart = True
-            # every loop exit passes this store before the next outer iteration / return
-            okall = all(must_pass(b, [0] + b.return_blocks() + [b.calls(r'Automaton::is_match$')[0][0]], [cand[0][0]], src=s) or s == cand[0][0] for _, s in exit_edges)
-            okp = okstart and okall
-            why = 'start ok=%s all exits ok=%s value=%s' % (okstart, okall, tstr(v, 120))
+    cand = [x for x in after if 'ABS' in tstr(snorm(x[2]))]
+    if len(cand) == 1:
+        v = snorm(cand[0][2])
+        # POS + (ABS - S) where S is a variable that captured absolute_pos before the scan loop
+        okstart = False
+        if v[0] == 'op' and v[1] == 'Add' and v[2] == POS and v[3][0] == 'op' and v[3][1] == 'Sub' and v[3][2] == ABS and is_var(v[3][3]):
+            S = v[3][3]
+            ds = b.defs().get(S[2], [])
+            okstart = (len(ds) == 1 and ds[0][2] == 'assign' and sf(b.rvalue_term(ds[0][3]['r'], 0, ds[0][0]), 'absolute_pos')
+                       and ds[0][0] not in body_blks and b.dominates(ds[0][0], h))
+        okall = all(must_pass(b, [0] + b.return_blocks() + [b.calls(r'Automaton::is_match$')[0][0]], [cand[0][0]], src=s) or s == cand[0][0] for _, s in exit_edges)
+        okp = okstart and okall
+        why = 'start ok=%s all exits ok=%s value=%s' % (okstart, okall, tstr(v, 120))
     cx.report('R07.3', b, 'buffer_pos-advance', okp, 'buffer_pos += absolute_pos - (absolute_pos at scan start) on every exit of the scan' if okp else 'buffer_pos is not advanced by the number of bytes scanned: ' + why)
 
 
@@ -793,11 +875,14 @@ def r18_1(cx):
 @only(STREAM_CONFIGS)
 def r18_2(cx):
     f = cx.body('util::buffer::Buffer::fill')
-    g = try_gates(f, lambda x: is_call(x, r'std::io::Read::read$'))
+    g = result_gates(f, lambda x: is_call(x, r'std::io::Read::read$'))
     ok = bool(g)
+    loop_hdrs = list(f.loops())
     for gb, x, cont, brk in g:
         for _, tg in brk:
-            r = f.reach(tg)
+            r = f.reach(tg, cut_blocks=loop_hdrs)
+            if any(h in r for h in loop_hdrs):
+                ok = False      # an error edge must leave the function, not retry
             for bi, si, tt, val, st in f.field_stores():
                 if bi in r:
                     ok = False
@@ -844,11 +929,7 @@ def r18_3(cx):
     s = cx.body("<automaton::StreamFindIter<'a, A, R> as core::iter::Iterator>::next")
     nones = [bi for bi, si, pl, st in s.stores() if si != 'term' and pl['l'] == 0 and not pl['pr'] and is_agg(s.rvalue_term(st['r'], 0, bi), r'Option$', 'None')]
     g = discr_gates(s, lambda x: is_call(x, r'StreamChunkIter::next$'))
-    cut = []
-    for gb, x, arms, oth in g:
-        nonet = {tg for v, tg in arms.items() if v == 0}
-        if gb == min(gg[0] for gg in g):
-            cut += [(gb, t2) for t2 in nonet]
+    cut = [e for gg in g for e in arm_edges(s, gg, 0)]
     ok = bool(g) and bool(nones) and not reachable_without(s, nones, cut)
     cx.report('R18.3', s, 'find-iter-none', ok, 'StreamFindIter ends only when the chunk iterator ends' if ok else 'StreamFindIter can end early')
     mats = [s.rvalue_term(st['r'], 0, bi) for bi, si, pl, st in s.stores() if si != 'term' and pl['l'] == 0 and not pl['pr']]
